@@ -137,7 +137,7 @@ PROPS = {
         "harnesses": [
             H("H_C01_checkTB", "real checkTB/doCheck/findBug/shrink/checkOnce on a deterministic symbolic program; quick: 3 opcodes over {return, draw bool, Errorf, Fatalf, data-dependent Fatalf, Skip, panic, draw from Bool().Filter}, checks=1, <=2 generated test cases, shrinktime in {0, 30s} with a ticking clock; thorough: 2 opcodes over the larger alphabet (+second fatal site, conditional opcode, SliceOfDistinct), checks in 1..2, <=3 generated cases, symbolic clock (deadline may fall between any two time.Now calls); PRNG words symbolic", reach=["reported", "not-failed"], quick=Q, thorough=TD, search=["env.maphash"]),
             H("H_C01_shrinkDeadline", "the real shrink() with a symbolic clock (the deadline may fall between any two time.Now readings) on the recording of a property that draws two booleans and always fails, at one site, with a message naming the drawn values; 2 symbolic words", reach=["returned", "deadline-passed"], native=False, quick=Q, thorough=T),
-            H("H_C05_accept", "shrinker invariant, see C05", reach=["accepted", "rejected"], sanity_reach=["accepted"], quick=Q, thorough=T),
+            H("H_C05_accept", "shrinker invariant, see C05", reach=["accepted", "rejected"], sanity_reach=["accepted"], quick=Q, thorough=TD),
         ] + PRUNE,
         "assumptions": ENGINE_ASSUME + ["jsf64 with a symbolic seed abstracted to an arbitrary word sequence determined by the seed expression", "fail files disabled (-rapid.nofailfile); C06 covers what is written to the file",
                                         "the executor's fmt model renders %#v of a slice differently from package fmt: logged-draw comparison is made for bool draws only"],
